@@ -1486,6 +1486,8 @@ impl DnsOutPacket {
 
         if self.size() > MAX_MSG_ABSOLUTE {
             self.data.truncate(start_size);
+            // Forget the compression offsets that pointed into the removed bytes.
+            self.names.retain(|_, offset| (*offset as usize) < start_size);
             self.state = PacketState::Finished;
             return false;
         }
